@@ -546,6 +546,8 @@ impl PartialEq for Cell { #[verifier::external_body] fn eq(&self, other: &Self) 
 #[verifier::external_body] proof fn axiom_cell_eq_int(a: Cell, k: i128) ensures cell_eq_u(a, Cell::Int(k)) == (strip(a) == Cell::Int(k)) {}
 // R3k: the tag key constant OFFSET_LIT (a string literal cell)
 #[verifier::external_body] fn verif_offset_lit() -> (r: Cell) ensures r == offset_lit() { unimplemented!() }
+#[verifier::external_body] fn verif_len_lit() -> (r: Cell) ensures r == len_lit() { unimplemented!() }
+#[verifier::external_body] fn verif_big_lit() -> (r: Cell) ensures r == big_lit() { unimplemented!() }
 
 } // verus!
 fn main() {}
